@@ -145,9 +145,15 @@ def build_harness(ctx, bench=False):
         lock.close()
 
 
-def run_harness(ctx, binary, args, timeout=1200, check=True):
+def run_harness(ctx, binary, args, timeout=1200, check=True, env=None):
+    e = dict(os.environ)
+    # C02 is about what reaches the application: its runs use a commit channel of capacity 1 (a slow application), read between handler runs
+    if ctx.prop == "C02":
+        e["HSVERIF_COMMIT_CAP"] = "1"
+    if env:
+        e.update(env)
     p = subprocess.run([binary] + args, stdout=subprocess.PIPE, stderr=subprocess.PIPE, text=True, timeout=timeout,
-                       cwd=ctx.work)
+                       cwd=ctx.work, env=e)
     if check and p.returncode not in (0,):
         sys.stdout.write(p.stdout[-3000:] + p.stderr[-3000:])
         raise ToolError("harness %s exited %d" % (args[0], p.returncode))
